@@ -44,6 +44,8 @@ func universe(nk int, rng *rand.Rand) [][]byte {
 //	c2             IAVL node cache of 2 nodes: children are (re)read from the database all the time
 //	cmsv           historical views through CacheMultiStoreWithVersion instead of LoadLazyVersion
 //	liverb         RollbackVersion runs on the live Store object when the process is up
+//	hc             the node under test runs with the height cache on (rootmulti.NewStore(db, true, ..)); the
+//	               reference node never does.  Used for C09 (historical reads), where the cache serves the reads.
 //	@N             (replay) the variant is applied to every N-th behaviour only
 type variant struct {
 	name   string
@@ -52,6 +54,7 @@ type variant struct {
 	cache  int64
 	entry  string
 	liveRB bool
+	hcache bool
 	every  int // replay: apply to every N-th behaviour only ("ldb@40")
 }
 
@@ -77,6 +80,8 @@ func parseVariant(s string) variant {
 			v.entry = "cmsv"
 		case "liverb":
 			v.liveRB = true
+		case "hc":
+			v.hcache = true
 		default:
 			panic("unknown variant part " + p)
 		}
@@ -129,7 +134,7 @@ func newWorld(v variant, names []string, nk, ntk int, rng *rand.Rand, attempt in
 	}
 	perms := permutations(append(append([]string{}, names...), transientName))
 	mount := perms[(attempt+int(rng.Int31n(1<<20)))%len(perms)]
-	o := nodeOpts{names: names, mount: mount, cacheSize: v.cache, viaCMS: v.viaCMS}
+	o := nodeOpts{names: names, mount: mount, cacheSize: v.cache, viaCMS: v.viaCMS, heightCache: v.hcache}
 	w.n = newNode(w.newBackend(), o)
 	w.ref = newNode(&memBackend{dbm.NewMemDB()}, nodeOpts{names: names, mount: perms[0], cacheSize: 100000, viaCMS: v.viaCMS})
 	return w
